@@ -27,6 +27,7 @@ import (
 	"time"
 
 	"github.com/pilosa/pilosa"
+	pilosahttp "github.com/pilosa/pilosa/http"
 	"github.com/pilosa/pilosa/test"
 	"github.com/pilosa/pilosa/toml"
 
@@ -181,6 +182,7 @@ type clus struct {
 	n     int
 	order []int // spec node (0-based, cluster order = sorted node ids) -> index in c
 	seq   int
+	cli   map[int]*pilosahttp.InternalClient // one http client per node (a new one per call leaks idle connections)
 }
 
 func newClus(t testing.TB, n int) (cl *clus, err error) {
@@ -194,7 +196,7 @@ func newClus(t testing.TB, n int) (cl *clus, err error) {
 	if err := c.Start(); err != nil {
 		return nil, err
 	}
-	cl = &clus{c: c, n: n}
+	cl = &clus{c: c, n: n, cli: map[int]*pilosahttp.InternalClient{}}
 	for i := range c {
 		cl.order = append(cl.order, i)
 	}
@@ -402,6 +404,7 @@ func runCase(cl *clus, cs *Case, cover func(string)) (*mismatch, error) {
 	}
 
 	self := cs.Selftest
+	var harnessErr error // descriptor exhaustion etc. in the harness process: never a verdict
 	corrupt := func(kind string) bool { // falsify one expectation of the given kind (binding self-test)
 		if self == 0 {
 			return false
@@ -539,11 +542,15 @@ func runCase(cl *clus, cs *Case, cover func(string)) (*mismatch, error) {
 					var m map[uint64]map[string]interface{}
 					switch kind {
 					case "col":
-						m, err = cl.node(n1).Client().ColumnAttrDiff(ctx, &uri, index, blks)
+						m, err = cl.client(n1).ColumnAttrDiff(ctx, &uri, index, blks)
 					case "rowf":
-						m, err = cl.node(n1).Client().RowAttrDiff(ctx, &uri, index, "f", blks)
+						m, err = cl.client(n1).RowAttrDiff(ctx, &uri, index, "f", blks)
 					default:
-						m, err = cl.node(n1).Client().RowAttrDiff(ctx, &uri, index, "g", blks)
+						m, err = cl.client(n1).RowAttrDiff(ctx, &uri, index, "g", blks)
+					}
+					if resourceErr(err) {
+						harnessErr = err
+						return nil
 					}
 					if err != nil {
 						return mk(i, "diff_error", map[string]string{"kind": kind}, "attr diff of node %d against node %d: %v", n1+1, n2+1, err)
@@ -671,7 +678,9 @@ func runCase(cl *clus, cs *Case, cover func(string)) (*mismatch, error) {
 		case "SyncPass":
 			k := st.Int("n") - 1
 			changed = k
-			if err := cl.node(k).Server.SyncData(); err != nil {
+			if err := cl.node(k).Server.SyncData(); resourceErr(err) {
+				return nil, err
+			} else if err != nil {
 				return mk(i, "sync_error", nil, "SyncData on node %d: %v", k+1, err), nil
 			}
 			if st.Bool("changed") {
@@ -706,6 +715,9 @@ func runCase(cl *clus, cs *Case, cover func(string)) (*mismatch, error) {
 			if op == "Final" {
 				if mm := verifyDiff(i, want, rels); mm != nil {
 					return mm, nil
+				}
+				if harnessErr != nil {
+					return nil, harnessErr
 				}
 				// the other index must not have been touched by any pass
 				for k := 0; k < n; k++ {
@@ -887,4 +899,19 @@ func TestAttrSync(t *testing.T) {
 	}, func(i int, v interface{}, stack string) {
 		res.SetInconclusive(fmt.Sprintf("driver panic: %v\n%s", v, stack))
 	})
+}
+
+func (cl *clus) client(k int) *pilosahttp.InternalClient {
+	if c, ok := cl.cli[k]; ok {
+		return c
+	}
+	c := cl.node(k).Client()
+	cl.cli[k] = c
+	return c
+}
+
+// resourceErr recognises errors of the harness process itself (descriptor exhaustion), which
+// say nothing about the code under test.
+func resourceErr(err error) bool {
+	return err != nil && (strings.Contains(err.Error(), "too many open files") || strings.Contains(err.Error(), "cannot assign requested address"))
 }
